@@ -6,7 +6,7 @@ ID = "C16"
 ENGINE = "trainsim"
 LEVEL = "exploration"
 EXPECTED_S_PER_RUN = 6.0
-TIERS = {"quick": 200, "thorough": 5000}
+TIERS = {"quick": 200, "thorough": 2500}
 
 RULE = (
     "each run draws a refinement program: generator kind (ODE, system of ODEs, stationary 2-D, space-time 2-D cartesian), "
